@@ -393,7 +393,7 @@ func (s *c02State) mutants(ctx context.Context, repo *headers.Repository, real *
 
 // daaDifferential: Branch.Target vs the reference on synthetic chains with hostile timestamps.
 func (s *c02State) daaDifferential(ctx context.Context, nChains int) {
-	regimes := []string{"regular", "ties", "decreasing", "far-future", "random-walk", "ties-all-orderings"}
+	regimes := []string{"regular", "ties", "decreasing", "far-future", "random-walk", "ties-all-orderings", "upper-clamp-band", "lower-clamp-band"}
 	common.ParallelFor(nChains, runtime.NumCPU(), func(ci int) {
 		rng := common.Rng(s.run.Seed, int64(50000+ci))
 		regime := regimes[ci%len(regimes)]
@@ -414,6 +414,13 @@ func (s *c02State) daaDifferential(ctx context.Context, nChains int) {
 				if regime == "ties-all-orderings" {
 					t = uint32(1540000000) + uint32(i*10) + uint32(rng.Intn(3))*30 - 30
 				}
+			case "upper-clamp-band":
+				// 144 intervals of 1200 s are exactly 288 blocks' worth; the jitter puts the span
+				// between the two medians within one block interval either side of the clamp
+				t = uint32(1540000000) + uint32(i)*1200 + uint32(rng.Intn(600))
+			case "lower-clamp-band":
+				// 144 intervals of 300 s are exactly 72 blocks' worth
+				t = uint32(1540000000) + uint32(i)*300 + uint32(rng.Intn(300))
 			case "decreasing":
 				t -= uint32(1 + rng.Intn(900))
 			case "far-future":
@@ -535,7 +542,14 @@ func daaCause(get func(h int) TW, h int) string {
 		cause += "median-tie-order"
 	}
 	if cause == "" {
-		cause = "other"
+		switch {
+		case ts > 288*600-600 && ts < 288*600+600:
+			cause = "upper-clamp-boundary"
+		case ts > 72*600-600 && ts < 72*600+600:
+			cause = "lower-clamp-boundary"
+		default:
+			cause = "other"
+		}
 	}
 	return cause
 }
